@@ -210,7 +210,7 @@ func standinAddDel(k1, k2 string, a1, d1 int64, payload []byte) bool {
 // the argument holds exactly the delta - only the times that changed the receiver, nothing when nothing changed.
 // The receiver's own times are >= 0 (invariant N of DESIGN section 6 C04: without it add_s = MinInt64 loses to 0).
 //@ bounded standinMerge11 pre=pre_standinMerge11 props=C04,C13 bound=1-entry-receiver,1-entry-argument,keys-possibly-equal
-//@ loop (*Volatile).Merge 0 unroll 1
+//@ loop (*Volatile).Merge 0 unroll 1 for=standinMerge11
 func pre_standinMerge11(k1, k2 string, a1, d1, a2, d2 int64) bool { return a1 >= 0 && d1 >= 0 }
 func standinMerge11(k1, k2 string, a1, d1, a2, d2 int64) bool {
 	s, r := NewVolatile(), NewVolatile()
@@ -282,7 +282,7 @@ func post_binary_ToString(b *[]byte, res0 string) bool {
 // values carry their 16-byte header - which the decoder must therefore guarantee (contract on DecodeTo below).
 
 //@ verify (*Volatile).Merge as=anyinput pre=pre_Volatile_Merge_any props=C09
-//@ loop (*Volatile).Merge 0 inv inv_Volatile_Merge_any modifies=*
+//@ loop (*Volatile).Merge 0 inv inv_Volatile_Merge_any modifies=* for=anyinput
 func pre_Volatile_Merge_any(s *Volatile, other Map) bool {
 	r, ok := other.(*Volatile)
 	return s != nil && s.lock != nil && ok && r != nil && r.lock != nil && specWF(s.data) && specWF(r.data)
